@@ -7,7 +7,7 @@ from .. import ndarr
 from ..ndarr import Arr, InterpRaise
 from ..absint import Interp
 from ..libmodels import Models
-from ..paths import approx_paths, path_text, only_negligible
+from ..paths import approx_paths, path_text, only_negligible, zero_substitution
 
 RULES = {
     'R-WINDOW': 'abstract run of fd_derivative on a symbolic grid with the calls of fd_weights intercepted: every output du[t] is '
@@ -78,10 +78,11 @@ def exact(ctx, where, n, m, g, gname):
             models.bind(I)
             return I.get_global('fornberg', 'fd_derivative')(Arr((len(g),), fx), Arr((len(g),), xs), n, m)
         with budget(90, 'fd_derivative exact n=%d m=%d' % (n, m)):
-            paths = approx_paths(body, records=records)
+            paths = approx_paths(body, records=records, zero_symbols=('c',))
         label0 = label
         for (decisions, du, exc), rec in zip(paths, records):
             label = label0 + ('' if not decisions else '/' + path_text(decisions))
+            zero, rec = zero_substitution(rec)
             if exc is not None:
                 rep.violation('R-EXACT', 'fornberg.fd_derivative', where, {'raises': exc.exc_name, 'message': exc.msg[:100]},
                               'the exact derivative', label, key='exact raises')
@@ -96,8 +97,13 @@ def exact(ctx, where, n, m, g, gname):
                     want = Poly.const(0)
                     for d in range(n, D + 1):
                         want = want + a[d] * (math.factorial(d) // math.factorial(d - n)) * (S * gk) ** (d - n)
-                    if not alg_equal(du[t], want):
-                        bad.append('du[%d] = %s, exact %s' % (t, repr(du[t])[:70], repr(want)[:70]))
+                    got = du[t]
+                    if zero:
+                        # the code took the side "this quantity is 0" (e.g. x0 == 0): judge it for such inputs
+                        got = got.subs(zero) if hasattr(got, 'subs') else got
+                        want = want.subs(zero)
+                    if not alg_equal(got, want):
+                        bad.append('du[%d] = %s, exact %s' % (t, repr(got)[:70], repr(want)[:70]))
             rep.check(not bad, 'R-EXACT', 'fornberg.fd_derivative', where, {'points': len(g), 'degree': D, 'mismatches': bad[:2]},
                       'the n-th derivative of the sampled polynomial at every grid point', label, key='exact')
     except AnalysisError as exc:
